@@ -180,7 +180,8 @@ def run(tier, seed):
         a2 = call(lambda: lab_only(s.evaluate(ri, rl, ei, el)))
         b2 = call(lambda: lab_only(s.evaluate(ri, bij(rl, "r"), ei, bij(el, "e"))))
         n_real += 1
-        log.add("same", "segment.evaluate[labelling]", a2, b2, {"what": "relabel", "fixture": "segment/" + nm})
+        # (on real-sized tables a bijection reorders the floating-point sums: equal to rounding, not bit for bit)
+        log.add("close", "segment.evaluate[labelling]", a2, b2, {"what": "relabel", "fixture": "segment/" + nm})
     for nm, (ri, rp, ei, ep) in realdata.pairs(me, "transcription", None if thorough else 3):
         pr, pe = list(range(len(ri))), list(range(len(ei)))
         rng.shuffle(pr)
